@@ -6,12 +6,32 @@ import (
 	"time"
 
 	"github.com/bluenviron/mediamtx/internal/conf"
+	"github.com/bluenviron/mediamtx/internal/logger"
 	"github.com/bluenviron/mediamtx/internal/zzverif/vnd"
 )
 
 func verifRegexpConf(name string) *conf.Path {
-	return &conf.Path{Name: name, Regexp: regexp.MustCompile(name[1:]), Source: "publisher", RecordPath: "./rec/%path/%Y"}
+	c := &conf.Path{Name: name, Source: "publisher", RecordPath: "./rec/%path/%Y"}
+	switch {
+	case name == "all_others":
+		c.Regexp = regexp.MustCompile("^.*$")
+	case name[0] == '~':
+		c.Regexp = regexp.MustCompile(name[1:])
+	}
+	return c
 }
+
+// the capture groups ($G1..) of a match; static configurations and the catch-all have none
+func verifGroups(m []string) []string {
+	if len(m) <= 1 {
+		return nil
+	}
+	return m[1:]
+}
+
+type verifC15Log struct{}
+
+func (verifC15Log) Log(logger.Level, string, ...any) {}
 
 type verifLivePath struct {
 	pa     *path
@@ -57,13 +77,19 @@ func verifSameStrings(a, b []string) bool {
 	return true
 }
 
-// VerifReloadReconcilesPath: one reload step with one live path created by a regular-expression configuration.
+// VerifReloadReconcilesPath: one reload step with one live path created by a regular-expression, static or catch-all configuration.
 func VerifReloadReconcilesPath() {
-	names := []string{"~^cam(\\d)$", "~^(c)am1$", "~^nomatch$", "~^ca[m](\\d)$"}
-	oldName := names[0]
+	names := []string{"~^cam(\\d)$", "~^(c)am1$", "~^nomatch$", "~^ca[m](\\d)$", "cam1", "all_others"}
+	oldName := []string{names[0], "cam1", "all_others"}[vnd.Choose("oldName", 3)]
 	old := verifRegexpConf(oldName)
-	live := verifLive("cam1", oldName, old, []string{"cam1", "1"})
-	pm := &pathManager{pathConfs: map[string]*conf.Path{oldName: old}, paths: map[string]*path{"cam1": live.pa}}
+	_, oldMatches, oerr := conf.FindPathConf(map[string]*conf.Path{oldName: old}, "cam1")
+	vnd.Assume(oerr == nil)
+	live := verifLive("cam1", oldName, old, oldMatches)
+	// a static configuration gets its path created by the reload: the manager's context is already
+	// cancelled so that (natively) the new path's event loop exits at once
+	pmCtx, pmCancel := context.WithCancel(context.Background())
+	pmCancel()
+	pm := &pathManager{ctx: pmCtx, parent: verifC15Log{}, pathConfs: map[string]*conf.Path{oldName: old}, paths: map[string]*path{"cam1": live.pa}}
 
 	newName := names[vnd.Choose("newName", len(names))]
 	nw := verifRegexpConf(newName)
@@ -80,7 +106,8 @@ func VerifReloadReconcilesPath() {
 	pm.doReloadConf(newPaths)
 
 	wantConf, wantMatches, err := conf.FindPathConf(newPaths, "cam1")
-	_, alive := pm.paths["cam1"]
+	cur, alive := pm.paths["cam1"]
+	alive = alive && cur == live.pa
 	reloads := verifReloads(live.pa)
 	switch {
 	case err != nil:
@@ -90,7 +117,7 @@ func VerifReloadReconcilesPath() {
 	case !alive:
 		// recreating a path is always a correct reconciliation; it is only excluded where the property
 		// promises that clients stay connected: same capture groups and only hot-reloadable changes
-		vnd.Assert(*live.closed && !verifSameStrings(live.pa.matches, wantMatches), "a change limited to hot-reloadable fields keeps the path")
+		vnd.Assert(*live.closed && !verifSameStrings(verifGroups(live.pa.matches), verifGroups(wantMatches)), "a change limited to hot-reloadable fields keeps the path")
 	default:
 		vnd.Assert(!*live.closed, "a path kept in the manager is not closed")
 		vnd.Assert(live.pa.confName == wantConf.Name, "the surviving path is attached to the configuration its name resolves to")
@@ -99,8 +126,9 @@ func VerifReloadReconcilesPath() {
 		} else {
 			vnd.Assert(len(reloads) == 0, "an unchanged configuration is not re-applied")
 		}
-		vnd.Assert(verifSameStrings(live.pa.matches, wantMatches), "the surviving path runs with the capture groups its name resolves to")
+		vnd.Assert(verifSameStrings(verifGroups(live.pa.matches), verifGroups(wantMatches)), "the surviving path runs with the capture groups its name resolves to")
 	}
 	vnd.Cover(err == nil && newName != oldName && change != 2, "path migrates to another regular-expression configuration")
 	vnd.Cover(err != nil, "configuration gone")
+	vnd.Cover(err == nil && alive && oldName == "all_others" && newName == "cam1" && change != 2, "path kept when it moves from the catch-all to a static configuration")
 }
